@@ -185,9 +185,40 @@ func runTok(which string) func(in sx.SX) (sx.SX, string) {
 				}
 			}
 		}
+		// a tokenizer object with a past: an earlier input, an abandoned HasNextToken look-ahead - then the same call
+		if fail == "" && kind != 2 {
+			w := warmTok[kind]
+			if w == nil {
+				w = newTokenizer(kind, l[3])
+				warmTok[kind] = w
+			}
+			setOptions(w, bits)
+			again := w.TokenizeBuffer(text)
+			same := len(again) == len(got)
+			for i := 0; same && i < len(got); i++ {
+				same = again[i].Type() == got[i].Type() && again[i].Value() == got[i].Value() && again[i].Line() == got[i].Line() && again[i].Column() == got[i].Column()
+			}
+			if !same {
+				fail = fmt.Sprintf("a tokenizer object used before (last input %s, then an abandoned HasNextToken) returns %s for this input, a new one %s", sx.Quote(warmLast[kind]), sx.Text(tokensSX(again)), sx.Text(obs))
+			}
+			// leave a look-ahead behind for the next case; also the C12 clause: a scanner that is Reset and tokenized again gives the same positions
+			sc := sio.NewStringScanner(text)
+			first := w.TokenizeStream(sc)
+			sc.Reset()
+			second := w.TokenizeStream(sc)
+			if fail == "" && sx.Text(tokensSX(first)) != sx.Text(tokensSX(second)) {
+				fail = fmt.Sprintf("TokenizeStream of a scanner, Reset(), TokenizeStream again: first %s, then %s", sx.Text(tokensSX(first)), sx.Text(tokensSX(second)))
+			}
+			w.SetReader(sio.NewStringScanner(text))
+			w.HasNextToken()
+			warmLast[kind] = text
+		}
 		return obs, fail
 	}
 }
+
+var warmTok = map[int]tokenizers.ITokenizer{}
+var warmLast = map[int]string{}
 
 var tokAlphabet = []rune{'ÿ', 'À', 'Ā', 'a', 'Z', '1', '0', '.', '-', '/', '*', '"', '\'', '<', '>', '=', '!', '{', '}', '#', ',', ' ', '\r', '\n', 'é', '日', '😀', 0xFFFF, '_', '(', '\t', 'e', '+', ';'}
 
@@ -284,7 +315,7 @@ func genTok(optionMode string) func(ctx *Ctx) {
 		if optionMode == "all" {
 			n = ctx.N / 2
 		}
-		fragments := []string{"/***/", "/* x **/", "ÿ", "Àÿ", "<=<><=", ">=>>>=", "<<<=<<", "{{{x}}}{{y}}{{{z}}}", " /*c*/ ", " # c\n ", " 😀 ", "\t/**/ ", " \r\n ", "<=", "<>", "{{", "}}", "{{{", "}}}", "/*", "*/", "//", "1.5e+3", "-1", "'a''b'", "\"x\"", "AND", "not", "\r\n", "\n\r", "1e", "1.", "-.", "#c", "a-b", "1e5", ".5", "{{#if x}}", "{{/if}}", " \t "}
+		fragments := []string{"/***/", "/* x **/", "ÿ", "Àÿ", "<=<><=", ">=>>>=", "<<<=<<", "{{{x}}}{{y}}{{{z}}}", " /*c*/ ", " # c\n ", " 😀 ", "\t/**/ ", " \r\n ", "<=", "<>", "{{", "}}", "{{{", "}}}", "/*", "*/", "//", "1.5e+3", "-1", "'a''b'", "\"x\"", "''''", "'''a'", "'a'''", "\"\"\"n\"\"\"", "''''''", "''", "\"\"", "'''", "\"\"\"\"", "AND", "not", "\r\n", "\n\r", "1e", "1.", "-.", "#c", "a-b", "1e5", ".5", "{{#if x}}", "{{/if}}", " \t "}
 		// runs of registered multi-character symbols (sibling symbols repeated on one instance)
 		syms := []string{"<=", "<>", "<<", ">=", ">>", "!=", "<", ">", "=", "{{", "}}", "{{{", "}}}", "\r\n", "\n\r"}
 		for i := 0; i < n/4+8; i++ {
